@@ -1,5 +1,5 @@
 """C07 — scheduler-moving operators (DESIGN §3 C07)."""
-from ..core import (Finding, lang_check, down_token, mentions, node_desc, SCHEDULE, sched_task_fn, task_tokens, down_method)
+from ..core import (recv_class, Finding, lang_check, down_token, mentions, node_desc, SCHEDULE, sched_task_fn, task_tokens, down_method)
 from ..expr import access_path, strip, render, walk
 from .. import roles
 
@@ -9,7 +9,7 @@ EXPLANATION = ('Static rules: T2 every function that turns a deadline `at: Insta
                'saturating/checked_duration_since(now)), never now − deadline (at.elapsed(), now.duration_since(at)); T3 delay forwards errors '
                'immediately and schedules items and completion, observe_on schedules all three, each task delivering exactly its notification; '
                'T4 the delay handed to Scheduler::schedule is Some(<the operator\'s delay field>) for delay/delay_subscription and None for '
-               'observe_on/subscribe_on (that the scheduler waits for it is C19.H2). T5 an operator observer only appends to the MultiSubscription it shares with the returned subscription and never unsubscribes it (otherwise the task carrying the terminal is cancelled on append). T6 the delay timer of a scheduled task is armed inside the task future (at its first poll), never in Scheduler::schedule itself: with deadlines fixed at schedule time an already-expired later task runs inline while an earlier one that was polled too early is re-queued behind it, so items of one delay operator overtake each other on a busy scheduler. Declined: order preservation "whatever order the '
+               'observe_on/subscribe_on (that the scheduler waits for it is C19.H2). T5 an operator observer only appends to the MultiSubscription it shares with the returned subscription and never unsubscribes it (otherwise the task carrying the terminal is cancelled on append). T7 while handling a notification, the scheduling operators never ask their own task handles whether they are closed (a task handle is locked while its task runs, and an item produced from inside that task would wait for it for ever); T6 the delay timer of a scheduled task is armed inside the task future (at its first poll), never in Scheduler::schedule itself: with deadlines fixed at schedule time an already-expired later task runs inline while an earlier one that was polled too early is re-queued behind it, so items of one delay operator overtake each other on a busy scheduler. Declined: order preservation "whatever order the '
                'scheduler runs its ready tasks in" — each notification is an independent task and nothing re-sequences them, which on a '
                'k-worker pool quantifies over executor run orders that no static argument here bounds.')
 ASSUMPTIONS = ['Instant arithmetic as documented in std']
@@ -45,7 +45,7 @@ SUB_SPEC = {
 
 
 def check(cx):
-    return t2(cx) + t34(cx) + t5(cx) + t6(cx)
+    return t2(cx) + t34(cx) + t5(cx) + t6(cx) + t7(cx)
 
 
 def t2(cx):
@@ -84,7 +84,20 @@ def t2(cx):
                                'the delay for a deadline is computed in the wrong direction: %s — a future instant gives a zero delay, a past one a growing delay' % why,
                                g.loc(x), [node_desc(g, x)]))
         elif good:
-            res.append(Finding(ID, 'T2', label, True, 'delay = deadline − now (%s)' % render(good[0]['value'])[:70], fn['span']))
+            # the difference must be used as it is: shortening it ("the task waits one period anyway") lets the first event come before the deadline
+            short = None
+            gv = [strip(x['value']) for x in good]
+            for x in g.nodes:
+                if x['kind'] in ('call', 'enter') and x['args'] and any(mentions(x['args'][0], lambda e, v=v: strip(e) == v) for v in gv):
+                    tail = x['name'].rsplit('::', 1)[-1]
+                    if tail in ('saturating_sub', 'checked_sub', 'sub', 'mul_f64', 'mul_f32', 'div_f64', 'div_f32', 'checked_div', 'div') and x['name'].startswith(('std::time::Duration', 'std::ops::Sub', 'std::ops::Div')):
+                        short = x
+            if short is not None:
+                res.append(Finding(ID, 'T2', label, False,
+                                   'the time left until the deadline is shortened again before it is used as the delay (%s): the first event can come before the requested instant' % render(short['value'])[:80],
+                                   g.loc(short), [node_desc(g, short)]))
+            else:
+                res.append(Finding(ID, 'T2', label, True, 'delay = deadline − now (%s)' % render(good[0]['value'])[:70], fn['span']))
         else:
             res.append(Finding(ID, 'T2', label, False, 'receives a deadline but never computes deadline − now', fn['span']))
     if not cx.control and n < 6:
@@ -230,4 +243,33 @@ def t6(cx):
                            if bad else 'the timer is armed inside the task future', g.loc(bad) if bad else fn['span']))
     if not cx.control and n < 2:
         res.append(Finding(ID, 'T6', 'floor', False, 'expected >= 2 Scheduler impls, found %d' % n))
+    return res
+
+
+def t7(cx):
+    """next/error/complete of the operators that keep their task handles in a MultiSubscription never call is_closed() on those
+    handles: Remote::poll holds the handle cell while the task (and the downstream callback in it) runs, so an item fed back from
+    that callback would block on the very handle that is executing"""
+    from ..core import IS_CLOSED_NAMES
+    F = cx.facts
+    res = []
+    if cx.control:
+        return res
+    n = 0
+    for im in cx.observer_impls():
+        tag = roles.impl_tag(cx, im)
+        comp = [f for f, t in roles.adt_fields(cx, tag) if 'MultiSubscription' in F.tystr(t)]
+        if not comp:
+            continue
+        for meth in ('next', 'error', 'complete'):
+            fn = cx.method(im, meth)
+            g = cx.graph(fn['key'])
+            n += 1
+            bad = [x for x in g.nodes if x['kind'] in ('call', 'enter') and (x['name'] in IS_CLOSED_NAMES or x['name'].endswith('boxed_is_closed')) and x['args'] and
+                   any(recv_class(x['args'][0]) == 'self.' + c or mentions(x['args'][0], lambda e, c=c: e[0] == 'field' and e[2] == c) for c in comp)]
+            res.append(Finding(ID, 'T7', cx.label(fn), not bad,
+                               'asks its own task handles for is_closed() while handling a notification: the handle of the task that is running right now is locked (Remote::poll), so an item produced from inside a downstream callback blocks for ever and nothing more is delivered'
+                               if bad else 'does not query its task handles', g.loc(bad[0]) if bad else fn['span']))
+    if n < 6:
+        res.append(Finding(ID, 'T7', 'floor', False, 'expected the delay/observe_on observers, found %d methods' % n))
     return res
